@@ -188,6 +188,7 @@ func verifMatrices() []verifNamedMatrix {
 		{"asymmetric(2,-2/0,-1,-2)", verifMatrix(2, -2, -1, -2, true)},
 		{"zero gaps(1,-1,0)", verifMatrix(1, -1, 0, 0, false)},
 		{"harsh mismatch(1,-9,-1)", verifMatrix(1, -9, -1, -1, false)},
+		{"cheap asymmetric gaps(5,-4,-1,-2)", verifMatrix(5, -4, -1, -2, false)},
 	}
 }
 
@@ -440,7 +441,7 @@ func verifRun(t *testing.T, which string) {
 	for _, id := range ids {
 		fmt.Printf("FINDING id=%s cases=%d example=%q\n", id, findings[id], examples[id])
 	}
-	fmt.Printf("BOUNDED name=%s.aligners cases=%d nontrivial=%d exhaustive=true domain=\"all six aligners (plain and quality letters), every pair of sequences of length 1..%d over %q, %d matrices (ties, asymmetric, zero gaps, harsh mismatch), gap-open in %v; oracle enumerates every alignment path\"\n", which, cases, nontrivial, maxLen, letters, len(verifMatrices()), opens)
+	fmt.Printf("BOUNDED name=%s.aligners cases=%d nontrivial=%d exhaustive=true domain=\"all six aligners (plain and quality letters), every pair of sequences of length 1..%d over %q, %d matrices (ties, asymmetric, zero gaps, harsh mismatch, cheap asymmetric gaps), gap-open in %v; oracle enumerates every alignment path\"\n", which, cases, nontrivial, maxLen, letters, len(verifMatrices()), opens)
 }
 
 // TestVerifBounded_C08_Optimal: the returned alignment's total score is the optimum of its class.
